@@ -34,7 +34,7 @@ for p in sorted(glob.glob('tools/refactors/*.patch')):
     d = desc(p).replace('behaviour-preserving refactor — every check must stay silent: ', '')
     out.append(f"| {n} | {d} | {'not run' if not r else (' '.join(r['caught']) or 'none (all 18 checks exit 0)')} |")
 out.append('\n### 10.7 Independent seeded changes (`seeded/<id>/`)\n')
-out.append('Produced by sub-agents that were given one property\'s text and a scratch worktree only (round 1: two changes per property, ids `Cxx-A/B`;\nround 2: three per property, ids `Cxx-A2/B2/C2`, told which mechanisms had already been tried and asked for harder ones;\nround 3: three more for C01, C02, C05, C06, C10 and C12, ids `Cxx-A3/B3/C3`, additionally told which *kinds* of change had proved easy).\nRound 1 was run against all 18 checks, round 2 against the property\'s own check and three neighbours; all at a quarter of the quick budgets. Every change was confirmed\nwith `tools/confirm_seed.sh` (suite 30/30 with the patch, demonstration fails with it and passes without) before it was kept.\n"own check" = reported by the check of the property the change was written against.\n')
+out.append('Produced by sub-agents that were given one property\'s text and a scratch worktree only (round 1: two changes per property, ids `Cxx-A/B`;\nround 2: three per property, ids `Cxx-A2/B2/C2`, told which mechanisms had already been tried and asked for harder ones;\nround 3: three more for C01, C02, C03, C05, C06, C07, C10, C12 and C14, ids `Cxx-A3/B3/C3`, additionally told which *kinds* of change had proved easy).\nRound 1 was run against all 18 checks, round 2 against the property\'s own check and three neighbours; all at a quarter of the quick budgets. Every change was confirmed\nwith `tools/confirm_seed.sh` (suite 30/30 with the patch, demonstration fails with it and passes without) before it was kept.\n"own check" = reported by the check of the property the change was written against.\n')
 out.append('| id | needs, in order to manifest | own check | all checks that report it |\n|---|---|---|---|')
 metas = sorted(glob.glob('seeded/*/meta.json'))
 n_own = 0
@@ -63,6 +63,7 @@ out.append('''* C13-A (sub-second early cycle) — the model judged elapsed time
 * round 2, C12-A2 (cap compared in 8 bits) — asks with 255…65539 items; C14-A2/B2 — rates that look legal after truncation to 8/16/32 bits, senders differing from the admin in letter case only; C16-A2/C2 — whitelist queries for every valid-address string found in the raw whitelist index, owners with > 256 reserved listings; C16-B2 — `C16.fee_denom` also judged at every purchase.
 * round 2, C03-A2/B2 — rules `C03.delivered_at_swap` and `C03.claim_lost`; C04-A2/B2/C2 — rules `C04.invalid_purchase`, `C04.registry_hijack`, `C04.registry_admin`.
 * round 3, C10-C3 (withdrawals by contract accounts skip the fee) — every trader used to be an externally owned account; a *contract account* (the forwarding stub used as a smart wallet) now takes part in a quarter of the General / Flipper / CycleHeavy / Faulty worlds like any user, its forwarded messages are judged like anybody's.
+* round 3, C03-A3 (balances swapped in a same-collection NFT-for-NFT trade) — first reported by C06 only; rule: NFTs must carry over exactly at the swap (`C03.half_swap`); C03-C3 — a refused claim of a purchase entitlement is `C03.claim_refused`; C14-A3/B3/C3 — a contract naming itself as collection, Register repeating the stored values, batched lookups of 51–80 entries.
 * round 3, C05-A3 — a denomination that differs from another only in letter case; C05-C3 — rule `C05.collateral_record_change`. The other seven round-3 changes were reported at the first try by intents added after round 2 (confusable fungible names, large overlapping royalty sets, traders as payout addresses, fee recorded before a cycle).
 * round 2, C07-C2 (payout re-validates the 25-asset cap) — worlds with 28–32 native denominations and records created with 26+ coins; C08-A2 — lifetimes `k·2^32 + r`; C08-C2 — asks naming an NFT the listing itself holds.
 * round 2, C09-A2/C2 (sharded / range-compressed id registries) — the harness no longer reads the contract's tombstone maps (the change would otherwise have been a build failure of the harness, exit 2, not a detection); ids congruent in their low bits, out-of-order small ids.
